@@ -71,6 +71,30 @@ Definition restricted_join_authorisable (ver : bytes) (d : rj_data) : bool :=
       end
   end.
 
+(* a rule for which the server cannot tell (not resident / no answer) *)
+Definition rule_unresolved (r : rj_rule) : bool :=
+  bytes_eqb (rr_type r) m_room_membership && rr_room_valid r &&
+  match rr_info r with QVal i => negb (ri_local_in_room i) | _ => true end.
+
+(* what each verdict of checkRestrictedJoin means: a chosen user is vouched for; "unable" only
+   when nobody can vouch and some rule could not be evaluated for lack of residency; "forbidden"
+   only when nobody can vouch although every rule could be evaluated *)
+Definition rj_verdict_spec (privileged : bool) (d : rj_data) (r : rj_result) : Prop :=
+  match r with
+  | RJVia u =>
+      (u = [] /\ no_authoriser_needed d = true) \/
+      (vouched_by privileged d u = true /\
+       exists jr, rj_join_rules d = QVal jr /\
+                  existsb (fun r => mem_bytes u (candidates r)) (jr_allow jr) = true)
+  | RJUnable =>
+      (forall u, vouched_by privileged d u = false) /\
+      exists jr, rj_join_rules d = QVal jr /\ existsb rule_unresolved (jr_allow jr) = true
+  | RJForbidden =>
+      (forall u, vouched_by privileged d u = false) /\ no_authoriser_needed d = false /\
+      exists jr, rj_join_rules d = QVal jr /\ existsb rule_unresolved (jr_allow jr) = false
+  | RJError => no_authoriser_needed d = false
+  end.
+
 Definition built_passes_auth (b : build_res) : bool :=
   match b with
   | BBuilt e => bytes_eqb (b_type e) m_room_member && b_provider_ok e && b_allowed_ok e
